@@ -156,12 +156,17 @@ func (tx *Tx) Commit() error {
 		countFlag = CountFlagDisabled
 	}
 
+	// reject an oversized entry before anything is written or indexed: failing
+	// in the middle of the loop below would leave the earlier entries visible
+	for _, entry := range tx.pendingWrites {
+		if entry.Size() > tx.db.opt.SegmentSize {
+			return ErrKeyAndValSize
+		}
+	}
+
 	for i := 0; i < writesLen; i++ {
 		entry := tx.pendingWrites[i]
 		entrySize := entry.Size()
-		if entrySize > tx.db.opt.SegmentSize {
-			return ErrKeyAndValSize
-		}
 
 		bucket := string(entry.Meta.bucket)
 
